@@ -86,6 +86,8 @@ type Op struct {
 	Bytes []int  `json:"bytes"`
 	Tail  []int  `json:"tail"`
 	Reuse bool   `json:"reuse"`
+	Pre   []int  `json:"pre"`
+	Rd    int    `json:"rd"`
 }
 
 type Case struct {
@@ -599,6 +601,10 @@ func classify(err error, otherwise string) string {
 
 func (c *Ctx) runOp(op *Op) (ev J) {
 	ev = J{"ev": op.Op, "id": op.ID}
+	if op.Op == "encinto" {
+		ev["pre"] = len(op.Pre)
+		ev["rd"] = op.Rd
+	}
 	fail := func(cls string, err error) J {
 		ev["ok"] = false
 		ev["cls"] = cls
@@ -610,9 +616,9 @@ func (c *Ctx) runOp(op *Op) (ev J) {
 		return fail("build-raises", err)
 	}
 	switch op.Op {
-	case "enc":
+	case "enc", "encinto":
 		if op.Val == nil {
-			return fail("build-raises", fmt.Errorf("enc op without val"))
+			return fail("build-raises", fmt.Errorf("%s op without val", op.Op))
 		}
 		var inst reflect.Value
 		err := guarded("build", func() (e error) {
@@ -627,6 +633,11 @@ func (c *Ctx) runOp(op *Op) (ev J) {
 			return fail("member-missing", err)
 		}
 		var buf bytes.Buffer
+		if op.Op == "encinto" && len(op.Pre) > 0 {
+			// the output buffer is USED: it already holds the bytes `pre`, the first `rd` of them consumed
+			buf.Write(toBytes(op.Pre))
+			buf.Next(op.Rd)
+		}
 		codec.ResetCalcs()
 		if err := guarded("Encode", func() error { return bc.Encode(&buf) }); err != nil {
 			return fail("encode-raises", err)
@@ -736,7 +747,11 @@ func main() {
 		ev := ctx.runOp(&cs.Ops[i])
 		line, err := json.Marshal(ev)
 		if err != nil {
-			line, _ = json.Marshal(J{"ev": cs.Ops[i].Op, "id": cs.Ops[i].ID, "ok": false, "cls": "read-raises", "err": "event not serialisable: " + err.Error()})
+			bad := J{"ev": cs.Ops[i].Op, "id": cs.Ops[i].ID, "ok": false, "cls": "read-raises", "err": "event not serialisable: " + err.Error()}
+			if cs.Ops[i].Op == "encinto" {
+				bad["pre"], bad["rd"] = len(cs.Ops[i].Pre), cs.Ops[i].Rd
+			}
+			line, _ = json.Marshal(bad)
 		}
 		out.Write(line)
 		out.WriteByte('\n')
